@@ -1428,12 +1428,14 @@ theorem expr_render_parse (e : ER.SExpr) (text : Str) (params : List (Str × Bou
 /-- **State-level form** (what a statement parser needs): from any parser state standing before a legal
 spelling of `e` followed by `post` — nothing pushed back, or the token scanned there pushed back —
 where the first token `T` of `post` is no binary operator and none of `(`, `.`, `::`: `ParseExpr`
-returns `e.erase`, keeps parameters and table, and stands before `post` having looked at `T` and pushed
+returns `e.erase`, keeps parameters, table and the three-slot bound of the token ring (`s.buf.length ≤ 3`:
+true of every reachable state), and stands before `post` having looked at `T` and pushed
 it back (or the fuel was too small). -/
 theorem expr_render_parse_state (F : Nat) (s : PState) (e : ER.SExpr) (post : Str) (T : Token)
-    (hF : ER.First post T) (hT : ER.StopTok T) (hl : e.legal post = true) (hat : RT.At s (e.text ++ post)) :
-    wp (parseExpr F) s (fun e' s' => e' = e.erase ∧ RT.At s' post ∧ RT.Same s s') RT.IsFuel :=
-  ER.parseExpr_render_state F s e post T hF hT hl hat
+    (hF : ER.First post T) (hT : ER.StopTok T) (hb : s.buf.length ≤ 3) (hl : e.legal post = true)
+    (hat : RT.At s (e.text ++ post)) :
+    wp (parseExpr F) s (fun e' s' => e' = e.erase ∧ RT.At s' post ∧ ER.Keeps s s') RT.IsFuel :=
+  ER.parseExpr_render_state F s e post T hF hT hb hl hat
 
 /-- **What the text denotes.** `e.erase` is not defined by the parser's own insertion step only: it is
 the image of C03's `parseChain` over the operands and operators in reading order, hence
@@ -1480,6 +1482,18 @@ example : parseExprText "\"select\"<>007/**/OR\r\n(x)".toList [] [] =
   expr_render_parse
     { g0 := [], a := .ref .quoted "select".toList,
       ops := .cons [] .NEQ ['<', '>'] [] (.int 2 7) (.cons [.block []] .OR ['O', 'R'] [.ws '\n'] (.paren [] (.ref .bare ['x']) .nil []) .nil),
+      g := [] } _ [] [] (by decide) (by decide)
+
+/-- `host=~ /* any */\n/^a\/b/ and\tn !~-- c\n /x/`: gaps with comments between `=~` / `!~` and the regex
+(`parseRegex` peeks at runes: the gap is skipped by its own whitespace / comment loop). -/
+example : parseExprText "host=~ /* any */\n/^a\\/b/ and\tn !~-- c\n /x/".toList [] [] =
+    .ok (.binary .AND (.binary .EQREGEX (.varRef "host".toList .Unknown) (.regex "^a/b".toList))
+      (.binary .NEQREGEX (.varRef ['n'] .Unknown) (.regex ['x']))) :=
+  expr_render_parse
+    { g0 := [], a := .ref .bare "host".toList,
+      ops := .consRe [] .EQREGEX ['=', '~'] [.ws ' ', .block " any ".toList, .ws '\n'] "^a/b".toList
+        (.cons [.ws ' '] .AND "and".toList [.ws '\t'] (.ref .bare ['n'])
+        (.consRe [.ws ' '] .NEQREGEX ['!', '~'] [.line " c".toList, .ws ' '] ['x'] .nil)),
       g := [] } _ [] [] (by decide) (by decide)
 
 /-- Outside `legal`, and rightly so: `a ---x⏎ b` is `a`, a comment, `b` (`ParseExpr` returns `a` and
